@@ -5,7 +5,7 @@ use super::{
     cow_slice::CowSlice,
     definition::{Definition, DefinitionMap, DefinitionState},
     engine::Engine,
-    error::HintError,
+    error::{HintError, HintErrorKind},
     graphics::RetainedGraphicsState,
     program::{Program, ProgramState},
     value_stack::ValueStack,
@@ -107,6 +107,22 @@ impl HintInstance {
         outline: &mut HintOutline,
         is_pedantic: bool,
     ) -> Result<(), HintError> {
+        // The outline's buffers are sized from the limits of its own font; an
+        // instance configured for a different font cannot be applied to it.
+        if outline.twilight_original_scaled.len() != self.twilight_original_scaled.len()
+            || outline.twilight_scaled.len() != self.twilight_scaled.len()
+            || outline.twilight_flags.len() != self.twilight_flags.len()
+            || outline.cvt.len() != self.cvt.len()
+            || outline.storage.len() != self.storage.len()
+        {
+            return Err(HintError {
+                program: Program::Glyph,
+                glyph_id: Some(outline.glyph_id),
+                pc: 0,
+                opcode: None,
+                kind: HintErrorKind::InstanceMismatch,
+            });
+        }
         // Twilight zone
         let twilight_count = outline.twilight_scaled.len();
         let twilight_contours = [twilight_count as u16];
